@@ -12,6 +12,7 @@ EXPLANATION = (
     "annotation dict; the client assigns the reply's annotations unconditionally after the sequence check on every path to a "
     "reply-carrying exit; every received message owns a fresh annotations dict."
     "Also decided: context stores count only when left normally (edge-based must-pass); the request's correlation id is adopted exactly on the flag edge; the client clears the response annotations before sending. "
+    "Also decided (round 7): What the annotations() hook returns is only read (never mutated, returned or kept); the calling thread's own request-annotation dict is only read by the client call path. "
     "Not decided: what a method observes under real interleavings (thread-locality is the interpreter's)."
 )
 
@@ -318,6 +319,51 @@ def run(ctx, R, tier):
     # ---------------------------------------------------------------- R5
     f = ctx.fn("Pyro5.client.Proxy._pyroInvoke")
     cfg = ctx.cfg(f)
+    # the calling thread's request annotations (current_context.annotations) belong to the caller: the call path reads them and sends them, it never writes into that
+    # dict - neither directly nor by handing it to a helper that stores into its parameter (what one call adds would be sent with every later call of the thread)
+    rdf = ctx.rd(f)
+    WRITES = {"update", "setdefault", "pop", "popitem", "clear", "__setitem__", "__delitem__"}
+
+    def writes_param(g, idx):
+        """does package function g store into / mutate its parameter number idx (counted without self)?"""
+        ps = [x for x in g.params if x != g.self_name]
+        if idx >= len(ps):
+            return None
+        nm = ps[idx]
+        for x in walk_no_nested(g.node):
+            if isinstance(x, (ast.Assign, ast.AugAssign, ast.Delete)):
+                for t in (x.targets if hasattr(x, "targets") else [x.target]):
+                    if isinstance(t, ast.Subscript) and isinstance(t.value, ast.Name) and t.value.id == nm:
+                        return x
+            if isinstance(x, ast.Call) and isinstance(x.func, ast.Attribute) and x.func.attr in WRITES and isinstance(x.func.value, ast.Name) and x.func.value.id == nm:
+                return x
+        return None
+
+    def is_callers_dict(node, name):
+        defs = rdf.reaching(node, name)
+        return any(d.kind == "assign" and d.value is not None and isinstance(d.value, ast.Attribute) and d.value.attr == "annotations" and "current_context" in unparse(d.value.value) for d in defs)
+    bad = None
+    for n in cfg.nodes:
+        for e_ in stmt_exprs(n):
+            for x in walk_no_nested(e_):
+                if isinstance(x, ast.Call):
+                    if isinstance(x.func, ast.Attribute) and x.func.attr in WRITES and isinstance(x.func.value, ast.Name) and is_callers_dict(n, x.func.value.id):
+                        bad = (x, "modifies it (`%s`)" % unparse(x, 60))
+                    for t in ctx.cg.resolve_call(x, f):
+                        if t.kind != "fn":
+                            continue
+                        for i, a in enumerate(x.args):
+                            if isinstance(a, ast.Name) and is_callers_dict(n, a.id):
+                                w = writes_param(t.fn, i)
+                                if w is not None:
+                                    bad = (x, "hands it to %s, which writes into it (`%s`)" % (t.fn.qualname.split(".", 2)[2], unparse(w, 60)))
+        if n.kind == "stmt" and isinstance(n.ast, (ast.Assign, ast.AugAssign, ast.Delete)):
+            for t in (n.ast.targets if hasattr(n.ast, "targets") else [n.ast.target]):
+                if isinstance(t, ast.Subscript) and isinstance(t.value, ast.Name) and is_callers_dict(n, t.value.id):
+                    bad = (n.ast, "modifies it (`%s`)" % unparse(n.ast, 60))
+    R.check(bad is None, "C12-R5", "_pyroInvoke|callers-annotations-read-only", "the calling thread's current_context.annotations dict is only read by the call path", f.loc(bad[0]) if bad else f.loc(),
+            ("_pyroInvoke takes the thread's own request-annotation dict and %s: what this call adds stays in the caller's context and is sent with every later call of that thread, "
+             "to any object on any server" % bad[1]) if bad else "")
     recv_calls = ctx.calls_to(f, "Pyro5.protocol.recv_stub")
     if len(recv_calls) != 1:
         raise AnalysisError("_pyroInvoke: expected exactly one recv_stub call")
